@@ -182,15 +182,22 @@ func renderScrape(sc *c14Scrape) []byte {
 		if len(ls) > 0 {
 			name += "{" + strings.Join(ls, ",") + "}"
 		}
-		switch s.Form % 4 {
+		switch s.Form % 7 {
 		case 0:
 			lines = append(lines, name+" 1")
 		case 1:
 			lines = append(lines, name+" 2.5e3 1600000000000")
 		case 2:
 			lines = append(lines, name+" NaN")
-		default:
+		case 3:
 			lines = append(lines, name+"  +Inf")
+		case 4:
+			// an OpenMetrics exemplar (the scraper asks for OpenMetrics first)
+			lines = append(lines, name+" 17 # {trace_id=\"KOO5S4vxi0o\"} 0.67 1520879607.789")
+		case 5:
+			lines = append(lines, name+" 3 1600000000.123") // OpenMetrics timestamp, in seconds
+		default:
+			lines = append(lines, name+" 4 4102444800000") // a timestamp far ahead
 		}
 	}
 	noise := []string{"# HELP a_x help text", "", "# TYPE a_x counter", "   ", "#just a comment"}
@@ -501,7 +508,7 @@ func genC14(t *rapid.T) *c14Case {
 		if !sc.Fail || sc.FailCode != 0 {
 			n := rapid.IntRange(0, 14).Draw(t, l+"-n")
 			for k := 0; k < n; k++ {
-				s := c14Sample{Metric: rapid.SampledFrom(metrics).Draw(t, fmt.Sprintf("%s-m%d", l, k)), Form: rapid.IntRange(0, 3).Draw(t, fmt.Sprintf("%s-f%d", l, k))}
+				s := c14Sample{Metric: rapid.SampledFrom(metrics).Draw(t, fmt.Sprintf("%s-m%d", l, k)), Form: rapid.IntRange(0, 6).Draw(t, fmt.Sprintf("%s-f%d", l, k))}
 				if z := rapid.SampledFrom([]string{"", "z1", "z2", "z3"}).Draw(t, fmt.Sprintf("%s-z%d", l, k)); z != "" {
 					s.Labels = map[string]string{"zone": z}
 				}
